@@ -193,7 +193,11 @@ func predicateOrbitComplete(c *Ctx, pred *ssa.Function) (string, bool) {
 	}
 	// otherwise: a bounded number of SimpleFold steps
 	n := 0
-	for _, fn := range core.WithClosures(pred.Parent()) {
+	par := pred.Parent()
+	if par == nil {
+		par = pred // a method value or a named function used as the predicate
+	}
+	for _, fn := range core.WithClosures(par) {
 		n += len(core.CallsTo(fn, "unicode.SimpleFold"))
 	}
 	return sprintf("the predicate compares with a fixed number of fold variants (%d SimpleFold call(s), no loop back to the start of the orbit); orbits such as {K, k, U+212A} and {S, s, U+017F} have three members", n), false
